@@ -92,3 +92,36 @@ Definition bs_fill_all (b : bitset) : bitset :=
 Definition bs_truncate (b : bitset) (n : Z) : bitset := bs_clear_unused (mkbs (b_data b) (b_words b) (Z.min (b_size b) n) (b_cap b)).
 Definition bs_release (a : arena) (b : bitset) : arena * bitset :=
   match b_data b with Some p => (free_reusable a p (b_cap b / 8), bitset_empty) | None => (a, b) end.
+
+(* ---- binary operations with another bit set `o` (its words beyond its size are not read past words_per_bits) *)
+Fixpoint wcombine (f : Z -> Z -> Z) (dst src : list Z) (i : Z) (n : nat) : list Z :=
+  match n with O => dst | S k => wcombine f (wset dst i (f (wget dst i) (wget src i))) src (i + 1) k end.
+
+(* and_(other): common words are and-ed, the remaining words of `this` become 0 *)
+Definition bs_and (b o : bitset) : bitset :=
+  let tw := words_per_bits (b_size b) in let ow := words_per_bits (b_size o) in let c := Z.min tw ow in
+  bs_with_words b (wfill (wcombine Z.land (b_words b) (b_words o) 0 (Z.to_nat c)) c (Z.to_nat (tw - c)) 0).
+(* and_not(other): dst & ~src on the words of min(size, other.size) *)
+Definition bs_and_not (b o : bitset) : bitset :=
+  let c := words_per_bits (Z.min (b_size b) (b_size o)) in
+  bs_with_words b (wcombine (fun d s => Z.land d (Z.lxor s (Z.ones 64))) (b_words b) (b_words o) 0 (Z.to_nat c)).
+(* or_(other): dst | src on the words of min(size, other.size), then the unused bits of the last word are cleared *)
+Definition bs_or (b o : bitset) : bitset :=
+  let c := words_per_bits (Z.min (b_size b) (b_size o)) in
+  bs_clear_unused (bs_with_words b (wcombine Z.lor (b_words b) (b_words o) 0 (Z.to_nat c))).
+(* copy_from(arena, other) *)
+Definition bs_copy_from (mok : Z -> bool) (a : arena) (b o : bitset) : verr * arena * bitset :=
+  let new_size := b_size o in
+  if new_size =? 0 then (EOk, a, mkbs (b_data b) (b_words b) 0 (b_cap b))
+  else
+    let fin (a2 : arena) (b1 : bitset) :=
+      (EOk, a2, mkbs (b_data b1) (wcombine (fun _ s => s) (b_words b1) (b_words o) 0 (Z.to_nat (words_per_bits new_size))) new_size (b_cap b1)) in
+    if new_size >? b_cap b then
+      match alloc_reusable mok a ((((new_size + 63) / 64) * 64) / 8) with
+      | (None, a1) => (EOutOfMemory, a1, b)
+      | (Some (p, asz), a1) =>
+        let cap_bits := asz * 8 in
+        let a2 := match b_data b with Some old => free_reusable a1 old (b_cap b / 8) | None => a1 end in
+        fin a2 (mkbs (Some p) (zrepeat poison (cap_bits / 64)) 0 (cap_bits mod 2 ^ 32))
+      end
+    else fin a b.
